@@ -508,7 +508,7 @@ pub fn run(args: &Args) -> Report {
     rep.bounds.insert("sequence_length".into(), serde_json::json!(if thorough { "2 everywhere (binds on and off), 3 from every base state with binds off" } else { "2" }));
     rep.bounds.insert("base_states".into(), serde_json::json!(BASES.iter().map(|b| format!("{b:?}")).collect::<Vec<_>>()));
     let plan = Plan {
-        ks: if thorough { vec![0, 1, 2] } else { vec![0] },
+        ks: if thorough { vec![0, 1, 2] } else { vec![0, 1] },
         env: 0,
         fault: 0,
         total_wall: Duration::from_secs(if thorough { 1500 } else { 50 }),
